@@ -104,6 +104,9 @@ func (s *state) oblige(kind, label, clause, goal string, pos token.Pos, site str
 }
 
 func (u *unit) name() string {
+	if u.lemma != nil {
+		return strings.TrimPrefix(u.lemma.pkgPath, modPrefix+"/") + ".lemma " + u.lemma.name
+	}
 	p := u.fn.Pkg.Pkg.Path()
 	p = strings.TrimPrefix(p, modPrefix+"/")
 	return p + "." + funcKey(u.fn)
@@ -392,6 +395,14 @@ func (s *state) loopHeader(b, pred *ssa.BasicBlock) bool {
 		panic(engineErr("back edge into loop without entry: " + site))
 	}
 	s.curLoopPre = lc.pre
+	if spec != nil {
+		for _, uc := range spec.backUses {
+			for _, x := range uc.exprs {
+				e.what = "loop backedge use " + uc.src
+				s.useHint(e, x, pos, site+":back")
+			}
+		}
+	}
 	for i, c := range invs {
 		e.what = fmt.Sprintf("%s loop %d invariant %q", funcKey(fn), li.ord, c.src)
 		s.oblige("inv-preserved", clauseLabel(c, i), c.src, e.evalBool(c.e), pos, site, c.deep)
